@@ -18,7 +18,7 @@ RULE = (
     "Histories of constructions (arbitrary positional / keyword arguments) and clear_true_singleton(cls) / "
     "clear_true_singleton() calls over a fresh family per case: P, Q(P) (subclass of a singleton class), R (instances falsy via __len__), T (keyword-only, falsy via __bool__) N (its __init__ constructs R: nested construction) Y (its __init__ refuses some arguments, and for others issues a global clear from inside __init__), Z (closed signature) and M (its metaclass is DERIVED from TrueSingleton, the singleton-plus-ABCMeta recipe); the harness keeps no reference to instances between calls.  "
     "Bounded-exhaustive for all histories up to the stated length over {P,Q(P),R(falsy)} x 2 argument selections + targeted "
-    "and global clears, Hypothesis up to 60 operations, among them 'spam' (130 constructions of one class in a row) 'twin' (another singleton class with the same module and qualified name as P is defined and used meanwhile: nothing may change for the existing classes) and 'crowd' (140 further singleton classes live at once, 110 of them cleared one by one and each required to construct afresh).  Oracle = dict model: construct => the model's instance if "
+    "and global clears, Hypothesis up to 60 operations, among them 'spam' (130 constructions of one class in a row) class F with a dispatching __new__ (its instance is of the implementation subclass F2), 'twin' (another singleton class with the same module and qualified name as P is defined and used meanwhile: nothing may change for the existing classes) and 'crowd' (140 further singleton classes live at once, 110 of them cleared one by one and each required to construct afresh).  Oracle = dict model: construct => the model's instance if "
     "one is live (identity, __init__ not re-run, stored args are the first call's) else a new object of exactly that "
     "class, distinct from every other live instance, __init__ ran exactly once with these arguments; targeted clear "
     "leaves every other class's instance in place; global clear empties all; clears (also of a class without an "
